@@ -123,3 +123,58 @@ def queue_empty_facts(p, K):
                 kk = [k for k, e in calls_on(p) if e.res == a]
                 facts[K.queue_arg(a[2][0])] = ((cc[1] == "eq") == bool(taken), kk[0] if kk else 0)
     return facts
+
+
+def check_atomic_queue_geometry(chk, m, K, min_depth=8):
+    """The static initialiser of kernel.atomic_runq, read from the IR of fibre.c (so whatever the initialiser macro of
+    messageq.h and the arguments in fibre.c jointly produce): the pool is an array of this unit, every slot holds one
+    fibre_t pointer, queue_len == num_free <= (bytes of the pool) / msg_len, that depth accepts the `min_depth` undrained
+    requests of the property's scope and fits the 32 flag bits, and the queue starts empty."""
+    g = m.globals.get("kernel")
+    init = g.get("init") if g else None
+    inst = "kernel.atomic_runq static initialiser"
+    loc = "%s:%s" % (build.relpath(g.get("file", "")), g.get("line", "")) if g else ""
+    mq = None
+    if init and init.get("k") == "cagg":
+        cands = [e for e in init["elems"] if e.get("k") == "cagg" and "messageq" in e.get("ty", "")]
+        if len(cands) == 1:
+            mq = cands[0]
+    tid = m.di_by_name.get("messageq_t")
+    if mq is None or not tid:
+        chk.unknown("S10.atomic-queue-geometry", inst, "the initialiser of kernel.atomic_runq is not a constant messageq_t aggregate", loc)
+        return
+    names = [p for p, o, s, t in sorted(m.di_leaves(tid), key=lambda x: x[1])]
+    if len(names) != len(mq["elems"]):
+        chk.unknown("S10.atomic-queue-geometry", inst, "messageq_t has %d fields but the initialiser %d" % (len(names), len(mq["elems"])), loc)
+        return
+    f = dict(zip(names, mq["elems"]))
+    base = f["basep"]
+    while base.get("k") == "cexpr" and base.get("op") in ("bitcast", "getelementptr"):
+        base = base["ops"][0]
+    pool = m.globals.get(base.get("name")) if base.get("k") == "global" else None
+    ival = lambda e: e.get("v") if e.get("k") == "int" else (0 if e.get("k") == "zero" else None)
+    ml, ql, nf = ival(f["msg_len"]), ival(f["queue_len"]), ival(f["num_free"])
+    if pool is None or None in (ml, ql, nf):
+        chk.unknown("S10.atomic-queue-geometry", inst, "pool or geometry fields are not compile-time constants", loc)
+        return
+    B = pool["size"]
+    ptr_size = K.fibre["fn"][1]
+    ok = ml == ptr_size
+    chk.ob("S10.atomic-queue-geometry", inst + " msg_len", ok,
+           "every slot holds one fibre_t pointer: msg_len == %d (is %d)" % (ptr_size, ml), loc, "kernel")
+    whole = B // ml if ml else 0
+    ok = ql == nf and ql <= whole
+    chk.ob("S10.atomic-queue-geometry", inst + " depth", ok,
+           "queue_len == num_free == %d, within the %d slots of %s" % (ql, whole, pool["name"]) if ok else
+           "queue_len = %d, num_free = %d, but the pool %s is %d bytes = %d slots of %d bytes: %s" %
+           (ql, nf, pool["name"], B, whole, ml, "slots beyond the pool are handed out" if max(ql, nf) > whole else
+            "only %d of the pool's slots are used" % min(ql, nf)), loc, "kernel")
+    ok = min_depth <= ql <= 32 and nf >= min_depth
+    chk.ob("S10.atomic-queue-geometry", inst + " capacity", ok,
+           "the queue accepts the %d undrained fibre_run_atomic requests of the property's scope and its depth fits the 32 flag bits (depth %d)"
+           % (min_depth, ql) if ok else
+           "the queue has %d slot(s) (%d free): fibre_run_atomic refuses the %s undrained request although the property's scope allows %d, "
+           "and the refused fibre is never dispatched" % (ql, nf, "2nd" if nf == 1 else "%dth" % (nf + 1), min_depth), loc, "kernel")
+    z = [n for n in ("sendp", "full_flags", "receivep") if ival(f[n]) != 0]
+    chk.ob("S10.atomic-queue-geometry", inst + " empty", not z, "sendp, full_flags and receivep start at 0" + (" (not: %s)" % ", ".join(z) if z else ""),
+           loc, "kernel")
